@@ -21,6 +21,9 @@ pub fn hash_flow(packet: &[u8], num_workers: usize) -> Option<usize> {
             || (packet[12] == 0x86 && packet[13] == 0xDD))
     {
         14
+    } else if packet.len() >= 24 && packet[0] == 0x1e && packet[1] == 0x00 {
+        // NULL/loopback framing as the packet parser recognises it: 4-byte header, then IP
+        4
     } else {
         0 // Raw IP packet
     };
